@@ -336,16 +336,41 @@ func ruleTL2(c *Ctx) *rule {
 		for _, a := range c.lexAssigns(role[1]) {
 			st := a.st
 			f := st.Parent()
-			if seen[c.ipos(st)+role[0]] {
+			ctor := ""
+			if f == newF {
+				ctor = "new:" // a helper inlined into the constructor is judged there as well as in the states
+			}
+			if seen[ctor+c.ipos(st)+role[0]] {
 				continue
 			}
-			seen[c.ipos(st)+role[0]] = true
+			seen[ctor+c.ipos(st)+role[0]] = true
 			n++
 			key := fmt.Sprintf("lexer %s (%s) store#%d", role[0], role[1], n)
 			if f == newF {
 				want := int64(0)
 				if role[0] == "startLine" {
 					want = 1
+				}
+				if a.from != "" {
+					// copied from another cursor cell (start = pos after a helper moved pos): that cell must itself only hold the
+					// constructor's constants at this point
+					computed := ""
+					for _, a2 := range c.lexAssigns(a.from) {
+						if a2.st.Parent() != newF {
+							continue
+						}
+						if a2.val == nil {
+							computed = "a value the checker does not follow"
+						} else if _, isC := constInt(a2.val); !isC {
+							computed = condText(a2.val)
+						}
+					}
+					if computed != "" {
+						r.bad(key, c.ipos(st), fmt.Sprintf("the constructor sets %s to the lexer's %s after moving that to a computed value (%s): the text before it is never scanned, so nothing is emitted for it", role[1], a.from, computed))
+					} else {
+						r.ok(key, c.ipos(st), fmt.Sprintf("the constructor copies %s, which it only ever sets to constants", a.from))
+					}
+					continue
 				}
 				if a.val == nil {
 					continue // set through a value the checker does not follow (not an obligation)
@@ -526,7 +551,18 @@ func ruleTL4(c *Ctx) *rule {
 	n := 0
 	for _, a := range c.lexAssigns(ro.pos) {
 		st := a.st
-		if st.Parent() == newF || seen[c.ipos(st)] {
+		if st.Parent() == newF {
+			// the constructor starts the scan at the beginning: a position computed there (a skipped first line, a stripped
+			// prefix) leaves text for which no token is ever emitted
+			if a.val != nil {
+				if _, isC := constInt(a.val); !isC && !seen["new:"+c.ipos(st)] {
+					seen["new:"+c.ipos(st)] = true
+					r.bad(fmt.Sprintf("lexer pos (%s) constructor store @%s", ro.pos, c.ipos(st)), c.ipos(st), "the constructor moves the scan position to a computed value ("+condText(a.val)+"): the text before it is never scanned and the tokens no longer tile the input")
+				}
+			}
+			continue
+		}
+		if seen[c.ipos(st)] {
 			continue
 		}
 		seen[c.ipos(st)] = true
@@ -546,6 +582,33 @@ func ruleTL4(c *Ctx) *rule {
 			r.ok(key, c.ipos(st), "moves by the width of the decoded rune")
 		case isSpelling(bin.Y):
 			r.ok(key, c.ipos(st), "moves by the length of a token's fixed spelling")
+		case isConst && bin.Op == token.SUB:
+			// a step back by a fixed amount: fine over text that is known (by a suffix test on the scanned text) to hold no newline;
+			// over a newline it leaves the line counter one too high, because next() counted that newline when it was read
+			k, _ := constInt(bin.Y)
+			verdict, suffix := "none", ""
+			for _, g := range c.info(st.Parent()).necessaryGuards(st.Block()) {
+				call, isCall := g.cond.(*ssa.Call)
+				if !isCall || !g.pol || calleeName(call.Common()) != "strings.HasSuffix" || len(call.Common().Args) != 2 {
+					continue
+				}
+				if sfx, isS := constString(call.Common().Args[1]); isS && int64(len(sfx)) >= k {
+					suffix = sfx
+					if strings.Contains(sfx[len(sfx)-int(k):], "\n") {
+						verdict = "newline"
+					} else if verdict != "newline" {
+						verdict = "plain"
+					}
+				}
+			}
+			switch verdict {
+			case "plain":
+				r.ok(key, c.ipos(st), fmt.Sprintf("steps back by %d over text known to end in %q (no newline)", k, suffix))
+			case "newline":
+				r.bad(key, c.ipos(st), fmt.Sprintf("steps back by %d over text known to end in %q: the newline in it was counted when it was read and is not taken off the line counter here, so every later token reports a line one too high", k, suffix))
+			default:
+				r.undecided(key, c.ipos(st), fmt.Sprintf("the scan position steps back by %d without a test of what it steps over: whether that text holds a counted newline is a value-level question", k))
+			}
 		case isConst:
 			r.ok(key, c.ipos(st), "moves by a constant")
 		default:
